@@ -17,9 +17,21 @@ from harness.gen import N  # noqa: E402
 
 def fixed_schema():
     types = OrderedDict()
-    types["Query"] = {"kind": "OBJECT", "interfaces": [], "fields": [{"name": "ping", "type": N("Int"), "args": []}]}
+    from harness.gen import L
+    types["Cat"] = {"kind": "OBJECT", "interfaces": [], "fields": [{"name": "name", "type": N("String"), "args": []},
+                                                                 {"name": "meow", "type": N("Int"), "args": []}]}
+    types["Dog"] = {"kind": "OBJECT", "interfaces": [], "fields": [{"name": "name", "type": N("String"), "args": []},
+                                                                 {"name": "woof", "type": N("Int"), "args": []}]}
+    types["Pet"] = {"kind": "UNION", "members": ["Cat", "Dog"]}
+
+    def echo(n, t):
+        return {"name": n, "type": N("Int"), "args": [{"name": "v", "type": t, "default": None}]}
+    types["Query"] = {"kind": "OBJECT", "interfaces": [], "fields": [
+        {"name": "ping", "type": N("Int"), "args": []}, {"name": "pets", "type": L(N("Pet")), "args": []},
+        echo("echoInt", N("Int")), echo("echoStr", N("String")), echo("echoBool", N("Boolean")), echo("echoList", L(N("Int")))]}
     s = {"types": types, "query": "Query", "mutation": None, "subscription": None,
-         "resolvers": {("Query", "ping")}, "type_resolvers": set(), "field_type_resolvers": set()}
+         "resolvers": {("Query", f["name"]) for f in types["Query"]["fields"]}, "type_resolvers": set(),
+         "field_type_resolvers": set()}
     return execgen.add_error_path_types(s)
 
 
